@@ -52,13 +52,13 @@ theorem good_step {s s' : St} {e : Ev} (h : step s e = some s') (hf : s'.foreign
     simp only [step] at h
     split at h
     · rename_i hc
-      obtain ⟨hd, hh, hr, hdd⟩ := hc
-      simp at h; subst h
+      obtain ⟨hd, hr, hdd⟩ := hc
       have hemp : s.holds = [] := by
         cases hs : s.holds with
         | nil => rfl
         | cons a l => have := g.own a (by simp [hs]); rw [hd] at this; cases this
-      refine ⟨?_, ?_, ?_, ?_⟩ <;> simp [hemp, hr, hdd]
+      simp [hemp] at h; subst h
+      refine ⟨?_, ?_, ?_, ?_⟩ <;> simp [hr, hdd]
     · cases h
   | mkFail i => simp only [step] at h; split at h <;> simp at h; subst h; exact g
   | unlockBegin i =>
